@@ -66,6 +66,8 @@ MapEach(l, k) ==
            IN /\ lz' = Add(id, s) /\ eager' = AddE(id, [i \in 1..n |-> MapThunk(eager[l][i], nf + i)])
               /\ nf' = nf + n /\ UNCHANGED <<evals, nb, ctor>>
               /\ hist' = Append(hist, Rec("map_each", <<l, nf + 1, k>>, [id |-> id, len |-> n]))
+\* an argument that is BOTH iterable and callable is refused (ambiguous)
+MapAmbiguous(l) == Fail("map_ambiguous", <<l>>, "ValueError")
 Slice(l, s, e, st) ==
    IF st = 0 THEN Fail("slice", <<l, s, e, st>>, "ValueError")
    ELSE /\ CanGrow
@@ -133,7 +135,7 @@ Next == \E l \in Ids :
           \/ \E k \in PlainPool : ConcatPlain(l, k)
           \/ \E k \in IdxPool : Index(l, k)
           \/ \E idx \in FancyPool : Fancy(l, idx)
-          \/ (WithIter /\ (Iter(l) \/ LenOp(l)))
+          \/ (WithIter /\ (Iter(l) \/ LenOp(l) \/ MapAmbiguous(l)))
 Spec == Init /\ [][Next]_vars
 \* ---- properties (C19) -------------------------------------------------------------------
 \* faithful: every lazy list has the length and denotes the terms of the ordinary list
